@@ -181,7 +181,7 @@ def run(ctx):
     #    capacities 1 (everything collides), 2, 3; invariants + refinement checked by TLC; every edge of the state graphs
     #    is replayed on the real classes (direction A)
     if q:
-        graph_replay(ctx, binary, "HashChainsImpl_map3q.cfg", "map3", ["hashmap"])
+        graph_replay(ctx, binary, "HashChainsImpl_map3.cfg", "map3", ["hashmap"])
         graph_replay(ctx, binary, "HashChainsImpl_set2v.cfg", "set2v", ["hashset", "poolmap"])
         graph_replay(ctx, binary, "HashChainsImpl_map2v.cfg", "map2v", ["hashmap"])
     else:
